@@ -436,6 +436,21 @@ func (c17) Check(c *core.Case, env *core.Env, res zzsim.Result, v *core.Verdict)
 		if len(r.closerSeqs) > 0 && r.closerSeqs[0] < e {
 			e = r.closerSeqs[0]
 		}
+		// a successful RemoveHandler of this identifier that was under way
+		// while the handler existed (invoked for an earlier holder of the
+		// identifier, perhaps) may have taken it out of the table at any
+		// moment from its registration on; its close callback comes later
+		for _, rm := range st.rms {
+			if rm.id == r.id && rm.err == nil && rm.ret > r.makeCall {
+				at := rm.call
+				if at < r.makeCall {
+					at = r.makeCall
+				}
+				if at < e {
+					e = at
+				}
+			}
+		}
 		return e
 	}
 	for _, r := range st.hs {
